@@ -49,6 +49,12 @@ def run(tier):
     for p in (cases, mp):
         os.remove(p)
     core.record_and_judge(res, tier, 1500 if tier == "quick" else 20000, ["fn"], classify)
+    # the table-driven functions over lists of several strings (every element is converted on its own)
+    tr = os.path.join(WORK, "trace_C18_fntable.ndjson")
+    gv(["record-fn-table", "--out", tr])
+    cnt, kinds = core.validate_trace(res, "TraceEval", tr, lambda v, p, l: None if v in ("ok", "unknown") else "function-table:" + classify(v, p, l))
+    res.cov["fn_table_lines"] = {"lines": cnt, "kinds": kinds}
+    os.remove(tr)
     res.cov["rule"] = ("MC_Fn: every (function x argument value x argument form [query, [*] query, variable, literal, nested call] x "
                        "offsets/delimiter) state, laws as TLC invariants, each state replayed as a probing program; R: random programs "
                        "whose lets and right-hand sides call the functions (incl. json_parse/url_decode/regex_replace against reference tables)")
